@@ -107,21 +107,50 @@ def no_handover_on_critical_failure(ctx, rep, rule):
     rep.need(rule, n, 1, "job-exception exits of the wrapper")
 
 
+def _wpath(k):
+    """'a' for self.a, 'a.b' for self.a.b (a state object kept in an attribute of the window), else None"""
+    if T.is_attr(k) and k[1] == T.SELF:
+        return k[2]
+    if T.is_attr(k) and T.is_attr(k[1]) and k[1][1] == T.SELF:
+        return k[1][2] + '.' + k[2]
+    return None
+
+
+def _wterm(path):
+    t = T.SELF
+    for a in path.split('.'):
+        t = ('attr', t, a)
+    return T.mk(t)
+
+
 def window_gate(ctx, rep, rule, clause):
     """a job that obtains its window slot after the run is over does not start: between the last suspension and the
-    start of the body the wrapper tests a flag of the window (the gate), and that flag is raised
+    start of the body the wrapper tests a flag of the window (the gate), and that flag is switched
     - clause 'critical': on the path where the body of a critical job raises (C05);
     - clause 'endofrun': when the last job that does not run forever completes - the window counts them (C09).
-    The release of a slot wakes a queued job up before the scheduler itself resumes: only the wrapper can tell."""
+    The release of a slot wakes a queued job up before the scheduler itself resumes: only the wrapper can tell.
+    The flag may be `closed` (false at the body, set to True) or `open` (true at the body, set to False); the count
+    may go down to zero or up to the number expected."""
     from .runrules import count_term
+    from ..graphmodel import GraphModel
     r = ctx.roles
     an, ip, out = ctx.wrap(gen_cancel=True, gen_bodyexc=True)
     fn = r.WRAP.qualname
     bodies = an.events('BODY')
     rep.need(rule, len(bodies), 1, "job-body awaits in the wrapper")
-    gates = None
+    gates = None                      # {(attribute, value it has when the body may start)}
+    unbounded = {T.mk(('attr', T.SELF, a)) for a in ('jobs_window',)}
     for e in bodies:
-        g = {k[2] for k, v in e.st.facts.items() if v is False and T.is_attr(k) and k[1] == T.SELF}
+        if any(e.st.facts.get(k) is False for k in unbounded):
+            # no window at all: the queue is unbounded, nobody ever waits for a slot, the question does not arise
+            continue
+        g = {(_wpath(k), v) for k, v in e.st.facts.items() if v in (True, False) and _wpath(k) is not None
+             and k not in unbounded}
+        for k, v in e.st.facts.items():
+            # `if self.jobs_window and self.closed:` not taken: no window at all, or the window is still open
+            if v is False and k[0] == 'boolop' and k[1] == 'and' and all(_wpath(x) is not None for x in k[2]) \
+                    and any(x in unbounded for x in k[2]):
+                g |= {(_wpath(x), False) for x in k[2] if x not in unbounded}
         gates = g if gates is None else (gates & g)
     what = {"critical": "a critical job has failed", "endofrun": "the last job that does not run forever is over"}[clause]
     if not gates:
@@ -133,16 +162,21 @@ def window_gate(ctx, rep, rule, clause):
                  "scheduler itself resumes and cancels it - and starts its body although the run is over" % what,
                  trace(e.st))
         return
-    rep.ok(rule, "%s: body reached only with %s false" % (fn, sorted(gates)))
+    rep.ok(rule, "%s: body reached only with %s" % (fn, sorted("%s %s" % (a, v) for a, v in gates)))
+    closing = {(a, not v) for a, v in gates}            # the stores that close the window
+    gname = sorted(a for a, _v in gates)[0]
+
+    def closes_it(wset):
+        return bool(closing & (wset or frozenset()))
     if clause == 'critical':
         n = 0
         for st, kind, node in out.exc:
             if kind[0] != 'BodyExc' or _critical_fact(ctx, st) is not True:
                 continue
             n += 1
-            rep.check(bool(gates & (st.a('wset') or frozenset())), rule,
+            rep.check(closes_it(st.a('wset')), rule,
                       "%s the failure of a critical job closes the window" % ip.where(node), fn,
-                      "exit[BodyExc] of a critical job without `self.%s = True`" % sorted(gates)[0],
+                      "exit[BodyExc] of a critical job without closing the window (`self.%s`)" % gname,
                       "a job queued for a slot starts after a critical job has raised, as soon as any other job "
                       "gives its slot back (it completes in the same instant, or a few loop iterations later)",
                       trace(st))
@@ -151,26 +185,63 @@ def window_gate(ctx, rep, rule, clause):
     # --- end of run: the window counts the jobs that are expected to complete
     jv = T.mk(('var', r.wrap_jobvar))
     FOREVER = T.mk(('attr', jv, 'forever'))
+
+    def reached(e, K):
+        """the path of event e knows that the count K has reached its end: (kind, other side)"""
+        KA = _wterm(K)
+        if e.st.facts.get(KA) is False:
+            return ('zero', None)
+        for k, v in e.st.facts.items():
+            if k[0] != 'cmp':
+                continue
+            a, b = k[2], k[3]
+            op = k[1]
+            if b == KA and a != KA:
+                a, b = b, a
+                op = {'<': '>', '>': '<', '<=': '>=', '>=': '<='}.get(op, op)
+            if a != KA:
+                continue
+            hit = (v is True and op in ('==', '<=', '>=')) or (v is False and op in ('!=', '>', '<'))
+            if not hit:
+                continue
+            if b == ('const', 0):
+                return ('zero', None)
+            if _wpath(b) is not None:
+                return ('target', _wpath(b))
+        return None
     closes = []
     for e in an.events('WSTORE'):
-        if e.data['attr'] in gates and e.data['val'] == T.TRUE:
+        if (e.data['attr'], e.data['val'][1] if e.data['val'] in (T.TRUE, T.FALSE) else None) in closing:
             for K in e.data['wdec']:
-                KA = T.mk(('attr', T.SELF, K))
-                zero = e.st.facts.get(KA) is False or any(
-                    v is True and k[0] == 'cmp' and k[1] in ('==', '<=') and k[2] == KA and k[3] == ('const', 0)
-                    for k, v in e.st.facts.items()) or any(
-                    v is False and k[0] == 'cmp' and k[1] in ('>', '!=') and k[2] == KA and k[3] == ('const', 0)
-                    for k, v in e.st.facts.items())
-                if zero:
-                    closes.append((e, K))
+                how = reached(e, K)
+                if how is not None:
+                    closes.append((e, K, how))
     if not closes:
         rep.fail(rule, "%s the window closes with the last job that does not run forever" % fn, fn,
-                 "no `self.%s = True` under `<count of the jobs still expected> == 0` after that count was decremented"
-                 % sorted(gates)[0],
+                 "no store that closes the window (`self.%s`) under `<count of the jobs still expected> == 0` (or "
+                 "`<count of completions> == <number expected>`) after that count was updated" % gname,
                  "a forever job queued for a slot behind the last regular job is woken up when that job gives its slot "
                  "back, before the scheduler resumes: it starts after the run is over")
         return
-    counters = {K for _e, K in closes}
+    counters = {K for _e, K, _h in closes}
+    targets = {h[1] for _e, _K, h in closes if h[0] == 'target'}
+    cname = sorted(counters)[0]
+    # a completion is counted when it has happened: not when the job gets its slot
+    for e in an.events('WSTORE'):
+        if e.data['attr'] in counters and (e.data['aug'] in ('Sub', 'Add') or (
+                e.data['val'][0] == 'binop' and e.data['val'][1] in ('Sub', 'Add'))):
+            rep.check(e.data['body_started'] or e.data['cancelled'], rule,
+                      "%s the count moves when the job is over" % e.where, fn,
+                      "`%s` before the body of the job has run" % src(stmt_of(e.node)),
+                      "the window closes when the last regular job *starts*: a job that becomes eligible while it "
+                      "still runs (a forever job behind a finished requirement) is parked although slots are free",
+                      trace(e.st))
+            up = e.data['aug'] == 'Add' or (e.data['val'][0] == 'binop' and e.data['val'][1] == 'Add')
+            rep.check(up == bool(targets), rule, "%s the count moves towards its end" % e.where, fn,
+                      "`%s` while the window closes when the count %s" % (
+                          src(stmt_of(e.node)), "equals self.%s" % sorted(targets)[0] if targets else "is zero"),
+                      "the count never reaches the value at which the window closes", trace(e.st))
+
     def forever_of(st):
         fv = st.facts.get(FOREVER)
         if fv is None and st.a('fvr') is not None:
@@ -181,21 +252,21 @@ def window_gate(ctx, rep, rule, clause):
         dec = counters & (st.a('wdec') or frozenset())
         if fv is None:
             rep.check(not dec, rule, "%s the count tells forever jobs from the others" % ip.where(node), fn,
-                      "`self.%s -= 1` on a path that does not look at `forever`" % sorted(counters)[0],
+                      "`self.%s` updated on a path that does not look at `forever`" % cname,
                       "a forever job that ends is counted: the window closes while a regular job is still to run, and "
                       "that job never starts", trace(st))
             rep.check(bool(dec), rule, "%s a job that completes is counted" % ip.where(node), fn,
-                      "normal return without `self.%s -= 1`" % sorted(counters)[0],
+                      "normal return without an update of `self.%s`" % cname,
                       "the window never closes (a forever job queued behind the last regular job starts after the "
                       "run is over)", trace(st))
         elif fv is False:
             rep.check(bool(dec), rule, "%s a job that completes is counted" % ip.where(node), fn,
-                      "normal return of a job that does not run forever without `self.%s -= 1`" % sorted(counters)[0],
+                      "normal return of a job that does not run forever without an update of `self.%s`" % cname,
                       "the window never closes (a forever job queued behind the last regular job starts after the "
                       "run is over)", trace(st))
         else:
             rep.check(not dec, rule, "%s a forever job that ends is not counted" % ip.where(node), fn,
-                      "`self.%s -= 1` for a forever job" % sorted(counters)[0],
+                      "`self.%s` updated for a forever job" % cname,
                       "the window closes while a regular job is still to run: that job never starts", trace(st))
     for st, kind, node in out.exc:
         if kind[0] != 'BodyExc':
@@ -204,31 +275,52 @@ def window_gate(ctx, rep, rule, clause):
         dec = counters & (st.a('wdec') or frozenset())
         if fv is True:
             rep.check(not dec, rule, "%s a forever job that raises is not counted" % ip.where(node), fn,
-                      "`self.%s -= 1` for a forever job" % sorted(counters)[0],
+                      "`self.%s` updated for a forever job" % cname,
                       "the window closes while a regular job is still to run: that job never starts", trace(st))
         elif _critical_fact(ctx, st) is not True:
             rep.check(bool(dec), rule, "%s a job that raises (and is tolerated) is counted" % ip.where(node), fn,
-                      "exit[BodyExc] of a job that does not run forever without `self.%s -= 1`" % sorted(counters)[0],
+                      "exit[BodyExc] of a job that does not run forever without an update of `self.%s`" % cname,
                       "the window never closes when a regular job has failed", trace(st))
-    # the count starts as the number of members that do not run forever
+    # the count starts as the number of members that do not run forever (or: starts at zero, and the number expected
+    # is that number)
     init = ctx.prog.supplier(r.window_cls, '__init__')
-    from ..graphmodel import GraphModel
     okinit = False
     why = "no constructor"
     param = None
+    counted = targets or counters       # the attribute(s) that must hold the number of jobs expected
     if init is not None:
+        from ..flow import HEAP
         an2, ip2, out2 = ctx.explore(init, model=GraphModel)
+        # what the constructor leaves in each attribute (path -> values), the fields of a state object it builds
+        # and keeps in an attribute included
+        initial = {}
         for e in an2.events('STORE'):
-            if e.data['attr'] in counters and e.data['obj'] == T.SELF:
+            if e.data['obj'] == T.SELF:
+                initial.setdefault(e.data['attr'], set()).add(e.data['val'])
+        for st in list(out2.nxt) + [x[0] for x in out2.ret]:
+            for k, v in st.vars.items():
+                if k[0] == HEAP:
+                    objt, field = k[1]
+                    for a, vals in list(initial.items()):
+                        if '.' not in a and objt in vals:
+                            initial.setdefault(a + '.' + field, set()).add(v)
+        for a in counted:
+            for v in initial.get(a, ()):
                 for pn in init.params[1:]:
-                    okc, why = count_term(e.data['val'], lambda base, pn=pn: base == T.mk(('var', pn)),
+                    okc, why = count_term(v, lambda base, pn=pn: base == T.mk(('var', pn)),
                                           lambda el: T.mk(('attr', el, 'forever')))
                     if okc:
                         okinit, param = True, pn
                         break
-    rep.check(okinit, rule, "%s the count starts as the number of jobs that do not run forever" % r.window_cls.name,
+        if targets:
+            zero = [v for a in counters for v in initial.get(a, ())]
+            okz = bool(zero) and all(v == ('const', 0) for v in zero)
+            rep.check(okz, rule, "%s the count of completions starts at zero" % r.window_cls.name, init.qualname,
+                      "self.%s initialised as %s" % (cname, [T.show(v, 3) for v in zero]),
+                      "the window closes too early or never")
+    rep.check(okinit, rule, "%s the number expected is the number of jobs that do not run forever" % r.window_cls.name,
               (init.qualname if init else r.window_cls.name), "self.%s is initialised otherwise (%s)"
-              % (sorted(counters)[0], why), "the window closes too early (a regular job never starts) or never")
+              % (sorted(counted)[0], why), "the window closes too early (a regular job never starts) or never")
     if okinit:
         idx = init.params.index(param) - 1
         calls = [n for n in walk_local(r.RUN.node) if isinstance(n, ast.Call) and dotted(n.func) == r.window_cls.name]
@@ -316,6 +408,32 @@ def wrap_acquire_real(ctx, rep, rule):
             elif obj == T.SELF and aug is None:
                 self.attrvals.setdefault(attr, []).append(val)
             return None
+    # the size is replaced by "no limit" only because of what the size itself is (None, 0): never because of
+    # something else the constructor knows (how many jobs there are, ...)
+    def about_size_only(test):
+        names = {n.id for n in ast.walk(test) if isinstance(n, ast.Name)}
+        attrs = {n.attr for n in ast.walk(test) if isinstance(n, ast.Attribute)}
+        calls = [n for n in ast.walk(test) if isinstance(n, ast.Call) and dotted(n.func) not in ('isinstance', 'int', 'bool')]
+        return names <= {size_param, 'self', 'None', 'int', 'bool', 'isinstance'} and attrs <= {'jobs_window'} and not calls
+    for n in walk_local(init.node):
+        tests = []
+        if isinstance(n, ast.Assign) and isinstance(n.value, ast.Constant) and any(
+                (isinstance(t, ast.Name) and t.id == size_param) or (isinstance(t, ast.Attribute) and t.attr == 'jobs_window')
+                for t in n.targets):
+            par = getattr(n, '_parent', None)
+            while par is not None and par is not init.node:
+                if isinstance(par, (ast.If, ast.While)):
+                    tests.append(par.test)
+                par = getattr(par, '_parent', None)
+        elif isinstance(n, ast.IfExp) and (isinstance(n.body, ast.Constant) or isinstance(n.orelse, ast.Constant)) \
+                and any(isinstance(x, ast.Name) and x.id == size_param for x in ast.walk(n)):
+            tests.append(n.test)
+        for t in tests:
+            rep.check(about_size_only(t), rule, "%s:%d the window is unbounded only when jobs_window says so"
+                      % (init.module.relpath, n.lineno), init.qualname,
+                      "`%s` under `%s`" % (src(n), src(t)),
+                      "the limit is lifted under a condition that is not about jobs_window itself: more than "
+                      "jobs_window bodies run at once (forever jobs, jobs of other kinds, are not in that count)")
     cap = Cap()
     cap.attrvals = {}
     ip2 = Interp(ctx.prog, cap)
@@ -405,9 +523,11 @@ def who_may_start(ctx, rep, rule):
                     and (f is r.WRAP or only_used_by(ctx, f, {r.WRAP.qualname})):
                 ok, why = True, "job body awaited inside the window wrapper"
             elif isinstance(recv, ast.Name) and recv.id in p.classes and r.sched in p.classes[recv.id].mro \
-                    and isinstance(par, ast.Await) and f is not None and f.name == 'co_run' \
-                    and f.cls in r.nestable and node.args and isinstance(node.args[0], ast.Name) \
-                    and node.args[0].id == 'self':
+                    and isinstance(par, ast.Await) and f is not None and f.cls in r.nestable \
+                    and (f.name == 'co_run' or (f.is_async and f.name.startswith('_') and only_used_by(
+                        ctx, f, {g.qualname for c in r.nestable for g in [c.methods.get('co_run')] if g is not None}))) \
+                    and node.args and isinstance(node.args[0], ast.Name) and node.args[0].id == 'self':
+                # (in the nested run itself, or in a private coroutine only it awaits)
                 ok, why = True, "nested form delegates to the inherited run, awaited"
             elif isinstance(recv, ast.Name) and recv.id == 'self' and isinstance(par, ast.Call) \
                     and isinstance(par.func, ast.Attribute) and par.func.attr == 'run_until_complete' \
@@ -534,6 +654,21 @@ def relation_builder(ctx, rep, rule):
         rep.check(ok, rule, "%s link orientation and totality" % e.where, f.qualname, why,
                   "the reverse relation is not `r.successors contains j for every member j and every r in "
                   "j.required`: successors are looked up in the wrong direction or partially", trace(e.st))
+    # the rebuild is unconditional: the builder returns early only on the say-so of its caller (a parameter), never
+    # because of something it remembers (a fingerprint of the previous graph: edits that keep it leave stale links)
+    for st, val, node in out.ret:
+        if st.a('built') or any(e.st is st for e in links):
+            continue
+        built = any(True for e in resets if e.where <= ip.where(node)) and False
+        own = [k for k, v in st.facts.items() if T.mentions(k, lambda s_: T.is_attr(s_) and s_[1] == T.SELF)]
+        params_only = all(T.mentions(k, lambda s_: s_[0] == 'var' and s_[1] in f.params) and not
+                          T.mentions(k, lambda s_: T.is_attr(s_) and s_[1] == T.SELF) for k in st.facts) if st.facts else False
+        if isinstance(node, ast.Return) and not st.a('linked') and not built:
+            rep.check(params_only, rule, "%s the rebuild is skipped only when the caller asks so" % ip.where(node),
+                      f.qualname, "`%s` before the links are rebuilt, under %s"
+                      % (src(node), [(T.show(k, 3), v) for k, v in st.facts.items()][:3]),
+                      "the reverse links are not rebuilt although the graph may have changed: successors(), "
+                      "exit_jobs() and the run itself work on a stale relation", trace(st))
     for lp in {id(c.node): c for e in links + resets for c in e.loops}.values():
         from ..flow import _may_stop_early
         if lp.kind == 'for':
@@ -996,6 +1131,7 @@ def params_consumed_once(ctx, rep, rule, funcs):
                   if p != f.vararg and p != getattr(f, 'kwarg', None)]
         for pn in params:
             n += 1
+            _MAT_CTX[0], _MAT_CTX[1] = ctx.prog, f
             worst = _consumption(f.node.body, pn, 0)
             rep.check(worst[0] < 2, rule, "%s: `%s` is run through at most once" % (f.qualname, pn), f.qualname,
                       "`%s` is consumed twice on a path (second time at line %s) without having been copied into "
@@ -1109,9 +1245,21 @@ def _consumption(stmts, pn, start):
     return (state, line, False)
 
 
-def _is_materialisation(v, pn):
+_MAT_CTX = [None, None]      # (program, function being judged): set by params_consumed_once
+
+
+def _is_materialisation(v, pn, depth=0):
     if isinstance(v, ast.Call) and isinstance(v.func, ast.Name) and v.func.id in MATERIALISERS:
         return True
+    if isinstance(v, ast.Call) and _MAT_CTX[0] is not None and depth < 2 and isinstance(v.func, ast.Attribute):
+        # x = self._as_set(x): a helper of the package every return of which is a fresh collection
+        from ..effects import callees_by_name
+        cs = callees_by_name(_MAT_CTX[0], _MAT_CTX[1], v)
+        if cs and all(c.name.startswith('_') and not c.is_generator and not c.is_async and
+                      [n for n in walk_local(c.node) if isinstance(n, ast.Return)] and
+                      all(n.value is not None and _is_materialisation(n.value, None, depth + 1)
+                          for n in walk_local(c.node) if isinstance(n, ast.Return)) for c in cs):
+            return True
     if isinstance(v, ast.IfExp):
         return _is_materialisation(v.body, pn) or _is_materialisation(v.orelse, pn)
     if isinstance(v, (ast.List, ast.Set, ast.Tuple, ast.ListComp, ast.SetComp)):
@@ -1138,3 +1286,76 @@ def topo_consumed_opaquely(ctx, f, depth=2, _seen=None):
                 if topo_consumed_opaquely(ctx, ctx.prog.supplier(f.cls, n.func.attr), depth - 1, _seen):
                     return True
     return False
+
+
+# ======================================================= a job is never asked whether it is iterable
+ABSTRACT_COLLECTIONS = {'Iterable', 'Iterator', 'Collection', 'Sized', 'Container', 'Reversible', 'Sequence'}
+
+
+def job_iterability(ctx, rep, rule, funcs):
+    """the nestable class is a collection of jobs (`__iter__`, `__len__` come from the scheduler side): code that sorts
+    its arguments into "a job" and "a collection of jobs" must ask `is it a job` first - a test of iterability that is
+    not preceded, in its if-chain, by a test for the job classes takes a nested scheduler apart"""
+    from ..effects import callees_by_name
+    r, p = ctx.roles, ctx.prog
+    has_iter = any('__iter__' in c.methods for n in r.nestable for c in n.mro)
+    todo = [f for f in funcs if f is not None]
+    seen = []
+    while todo:
+        f = todo.pop()
+        if f in seen:
+            continue
+        seen.append(f)
+        for n in walk_local(f.node):
+            if isinstance(n, ast.Call):
+                for c in callees_by_name(p, f, n):
+                    if c.name.startswith('_') and not c.name.startswith('__') and c.cls is not None and \
+                            (r.sched in c.cls.mro or r.jobbase in c.cls.mro or (r.sequence and c.cls is r.sequence)):
+                        todo.append(c)
+    n_tests = 0
+    job_classes = {c.name for c in p.classes.values() if r.jobbase in c.mro or r.sched in c.mro}
+
+    def kinds(test):
+        """names of the classes an isinstance test (or a conjunct of it) names"""
+        out = set()
+        for c in ast.walk(test):
+            if isinstance(c, ast.Call) and dotted(c.func) == 'isinstance' and len(c.args) == 2:
+                ks = c.args[1].elts if isinstance(c.args[1], ast.Tuple) else [c.args[1]]
+                out |= {(dotted(k) or '').split('.')[-1] for k in ks}
+            if isinstance(c, ast.Call) and dotted(c.func) == 'hasattr' and len(c.args) == 2 \
+                    and isinstance(c.args[1], ast.Constant) and c.args[1].value in ('__iter__', '__len__', '__getitem__'):
+                out.add('Iterable')
+        return out
+    for f in seen:
+        for node in walk_local(f.node):
+            if not isinstance(node, ast.If):
+                continue
+            ks = kinds(node.test)
+            if not (ks & ABSTRACT_COLLECTIONS) or (ks & {'Sequence'} and r.sequence is not None and
+                                                   not (ks & (ABSTRACT_COLLECTIONS - {'Sequence'}))):
+                continue
+            n_tests += 1
+            # the tests that precede it in the same if / elif chain
+            before = set()
+            cur = node
+            while True:
+                par = getattr(cur, '_parent', None)
+                if isinstance(par, ast.If) and par.orelse == [cur]:
+                    before |= kinds(par.test)
+                    cur = par
+                else:
+                    break
+            # ... or earlier `if isinstance(x, Job): ...; continue / return / yield` statements of the same block
+            par = getattr(cur, '_parent', None)
+            body = getattr(par, 'body', None)
+            if isinstance(body, list) and cur in body:
+                for prev in body[:body.index(cur)]:
+                    if isinstance(prev, ast.If) and prev.body and isinstance(prev.body[-1], (ast.Continue, ast.Return, ast.Raise)):
+                        before |= kinds(prev.test)
+            rep.check(not has_iter or bool(before & job_classes), rule,
+                      "%s:%d a job is recognised as a job before anything is asked about iterability"
+                      % (f.module.relpath, node.lineno), f.qualname,
+                      "`if %s` with no earlier test for %s in the chain" % (src(node.test), sorted(job_classes)[:3]),
+                      "a nested scheduler is iterable: it is taken for a collection and replaced by the jobs it contains "
+                      "(queries about it come back empty, closures stop at it)")
+    rep.ok(rule, "%d functions, %d tests of iterability" % (len(seen), n_tests))
